@@ -37,7 +37,7 @@ const (
 	annTmplPint = 1 << 7
 	annTmplProm = 1 << 8
 	annDurZero  = 1 << 9
-	annNullDec  = 1 << 10 // per node: the scalar resolves to null
+	annNullDec  = 1 << 11 // per node: the scalar resolves to null
 )
 
 var promTmplDefs = []string{
@@ -162,6 +162,38 @@ func hasNullTagText(docs []parser.VerifDoc) bool {
 	return found
 }
 
+// hasGroupLabelsAlias: an item of a `groups` sequence whose `labels` value is an alias node (`labels: *anchor`):
+// parseGroup reads the alias node's own (empty) Content, so the group labels are neither validated nor attached.
+func hasGroupLabelsAlias(docs []parser.VerifDoc) bool {
+	found := false
+	for _, d := range docs {
+		walkForest(d.Node, map[*yaml.Node]bool{}, func(n *yaml.Node) {
+			if n.Kind != yaml.MappingNode {
+				return
+			}
+			for i := 0; i+1 < len(n.Content); i += 2 {
+				if n.Content[i].Value != "groups" || n.Content[i+1].Kind != yaml.SequenceNode {
+					continue
+				}
+				for _, g := range n.Content[i+1].Content {
+					if g.Alias != nil {
+						g = g.Alias
+					}
+					if g.Kind != yaml.MappingNode {
+						continue
+					}
+					for j := 0; j+1 < len(g.Content); j += 2 {
+						if g.Content[j].Value == "labels" && g.Content[j+1].Kind == yaml.AliasNode {
+							found = true
+						}
+					}
+				}
+			}
+		})
+	}
+	return found
+}
+
 func hasAliasOrMerge(docs []parser.VerifDoc) bool {
 	found := false
 	for _, d := range docs {
@@ -215,23 +247,34 @@ func runC01(args []string) int {
 	must(os.MkdirAll(workDir, 0o755))
 	forestNodeExtra = c01NodeBits
 
-	type item struct{ content, class string }
+	// scheme: 0 = the run's default name validation scheme (seed parity), 1 = the other one. The scheme is a process-wide
+	// global of prometheus/common shared by pint and rulefmt; cases run sequentially and set it before every library call.
+	type item struct {
+		content, class string
+		scheme         int
+	}
 	var items []item
 	for _, p := range corpusFiles("C01") {
 		if b, err := os.ReadFile(p); err == nil {
-			items = append(items, item{string(b), "corpus"})
+			items = append(items, item{string(b), "corpus", 0})
 		}
 	}
 	for _, p := range corpusFiles("C19") {
 		if b, err := os.ReadFile(p); err == nil && !strings.Contains(p, ".wrapped.") {
-			items = append(items, item{string(b), "corpus-c19"})
+			items = append(items, item{string(b), "corpus-c19", 0})
 		}
 	}
 	gv := newDocGen(r, 0)
 	g1 := newDocGen(r, 0.04)
 	gm := newDocGen(r, 0.12)
-	for _, dev := range c01Catalogue(r, nCat) {
-		items = append(items, item{c01Render(dev), "catalogue:" + dev.op})
+	nameSlots := map[string]bool{"record": true, "alert": true, "gname": true, "glabelk": true, "alabelk": true, "annk": true, "rlabelk": true}
+	for i, dev := range c01Catalogue(r, nCat) {
+		if nameSlots[dev.slot] && (dev.op == "value" || dev.op == "key") {
+			// name validity depends on the scheme: both
+			items = append(items, item{c01Render(dev), "catalogue:" + dev.op, 0}, item{c01Render(dev), "catalogue:" + dev.op, 1})
+		} else {
+			items = append(items, item{c01Render(dev), "catalogue:" + dev.op, i % 2})
+		}
 		rep.hist("catalogue-slot:" + dev.slot)
 	}
 	for i := 0; i < len(c01BoundarySizes)+nStress; i++ {
@@ -246,34 +289,36 @@ func runC01(args []string) int {
 			kind = r.Intn(5)
 		}
 		content, desc := c01ReaderStress(r, gv, size, kind, i < len(c01BoundarySizes) || r.Intn(2) == 0)
-		items = append(items, item{content, "reader-stress"})
+		items = append(items, item{content, "reader-stress", 0})
 		rep.hist("reader-stress:" + desc[strings.Index(desc, ":")+1:])
 	}
 	n += len(items)
 	for len(items) < n {
 		switch r.Intn(10) {
 		case 0, 1:
-			items = append(items, item{gv.ruleFile(), "generated-valid"})
+			items = append(items, item{gv.ruleFile(), "generated-valid", r.Intn(2)})
 		case 2, 3, 4, 5:
-			items = append(items, item{g1.ruleFile(), "generated-few-defects"})
+			items = append(items, item{g1.ruleFile(), "generated-few-defects", r.Intn(2)})
 		case 6, 7:
-			items = append(items, item{gm.ruleFile(), "generated-defects"})
+			items = append(items, item{gm.ruleFile(), "generated-defects", r.Intn(2)})
 		case 8:
-			items = append(items, item{gm.mutateBytes(g1.ruleFile()), "generated-mutated"})
+			items = append(items, item{gm.mutateBytes(g1.ruleFile()), "generated-mutated", r.Intn(2)})
 		case 9:
-			items = append(items, item{c01Special(r), "special"})
+			items = append(items, item{c01Special(r), "special", r.Intn(2)})
 		}
 	}
-	names := model.UTF8Validation
+	schemes := []model.ValidationScheme{model.UTF8Validation, model.LegacyValidation}
 	if seed%2 == 0 {
-		names = model.LegacyValidation
+		schemes = []model.ValidationScheme{model.LegacyValidation, model.UTF8Validation}
 	}
-	rep.Notes = append(rep.Notes, fmt.Sprintf("name validation scheme of this run: %v (process-wide global shared by pint and rulefmt)", names))
-	model.NameValidationScheme = names
+	rep.Notes = append(rep.Notes, fmt.Sprintf("name validation scheme: per case (default of this run %v; name-sensitive catalogue cases under both); a process-wide global shared by pint and rulefmt, set before every call", schemes[0]))
 
 	for i, it := range items {
 		id := i + 1
 		content := []byte(it.content)
+		names := schemes[it.scheme]
+		model.NameValidationScheme = names
+		rep.hist(fmt.Sprintf("scheme:%v", names))
 		if strings.Contains(it.content, "# pint") || len(comments.Parse(1, it.content)) > 0 {
 			rep.hist("skipped:pint-comment")
 			continue
@@ -315,8 +360,8 @@ func runC01(args []string) int {
 		}
 		rep.hist("class:" + it.class)
 		rep.hist(fmt.Sprintf("pint-blocks=%v prom-accepts=%v", blockedAny, promOK))
-		rep.count(it.content, blockedAny || !promOK)
-		kept := map[string]any{"class": it.class, "content": it.content, "pint_blockers": blockers, "prom_errors": errStrings(perrs)}
+		rep.count(fmt.Sprintf("%v|%s", names, it.content), blockedAny || !promOK)
+		kept := map[string]any{"class": it.class, "name_validation_scheme": fmt.Sprint(names), "content": it.content, "pint_blockers": blockers, "prom_errors": errStrings(perrs)}
 		if len(it.content) > 20000 {
 			delete(kept, "content")
 			kept["content_run_length_encoded"] = rleLong(it.content) // runs of >= 64 equal bytes written as «c*N»
@@ -342,6 +387,8 @@ func runC01(args []string) int {
 				known = "C01-merge-not-alias"
 			case hasNullTagText(docs):
 				known = "C01-null-tag-text"
+			case hasGroupLabelsAlias(docs):
+				known = "C01-group-labels-alias"
 			}
 			if known != "" {
 				rep.failKnown(fmt.Sprint(id), what, kept, known)
